@@ -11,6 +11,9 @@ use crate::simfs::{FsOp, SimFs};
 use crate::suite_db::{parse_cfg, Session};
 use crate::util::*;
 
+/// raw facts of every directory check of the current case, for the model-side judgement
+pub static LAST_DIR_FACTS: std::sync::Mutex<Vec<String>> = std::sync::Mutex::new(Vec::new());
+
 /// directory check after quiescence: the files on disk are exactly CURRENT, LOCK, the current
 /// manifest, the live WAL(s) and the tables of the current version
 pub fn dir_check(sess: &Session) -> String {
@@ -34,6 +37,19 @@ pub fn dir_check(sess: &Session) -> String {
         .map(|(p, _)| p.to_string_lossy().to_string())
         .collect();
     actual.sort();
+    let facts = format!(
+        "D[{}]G[{}|{}|{}|{}|{}|{}]",
+        actual.iter().map(|s| s.replace("db/", "")).collect::<Vec<_>>().join(";"),
+        d.live_versions.iter().flatten().map(|n| n.to_string()).collect::<Vec<_>>().join(";"),
+        d.tables_in_use.iter().map(|n| n.to_string()).collect::<Vec<_>>().join(";"),
+        d.version_set_wal_number,
+        d.prev_wal_number.map(|n| n.to_string()).unwrap_or("-".to_string()),
+        d.manifest_file_number,
+        d.levels.iter().flatten().map(|f| f.0.to_string()).collect::<Vec<_>>().join(";")
+    );
+    if let Ok(mut g) = LAST_DIR_FACTS.lock() {
+        g.push(facts);
+    }
     if actual == expected {
         "exact".to_string()
     } else {
